@@ -1235,6 +1235,12 @@ int _vnadata_load_touchstone(vnadata_internal_t *vdip, FILE *fp,
 		    tps.tps_filename, tps.tps_line);
 		goto out;
 	    }
+	    if (reference != NULL) {
+		_vnadata_error(vdip, VNAERR_SYNTAX, "%s (line %d) error: "
+			"[Number of Ports] must appear before [Reference]",
+		    tps.tps_filename, tps.tps_line);
+		goto out;
+	    }
 	    tps.tps_ports = tps.u.tps_int;
 	    if (tps.tps_ports != 2 &&
 		    (tps.tps_parameter_type == VPT_G ||
@@ -1315,6 +1321,7 @@ int _vnadata_load_touchstone(vnadata_internal_t *vdip, FILE *fp,
 		    tps.tps_filename, tps.tps_line);
 		goto out;
 	    }
+	    free((void *)reference);	/* repeated keyword: last one wins */
 	    if ((reference = calloc(tps.tps_ports,
 			    sizeof(double complex))) == NULL) {
 		_vnadata_error(vdip, VNAERR_SYSTEM,
